@@ -351,6 +351,21 @@ def rule_sketch_structure(ctx):
                 mask = any(x == ('static', 'common::frequency_sketch::RESET_MASK') or x == ('c', 0x7777777777777777) for x in (a, c))
                 if shr1 and mask:
                     halved = True
+    # the sample counter follows the counters: size' = (size - odd/4) / 2  (with size >= sum/4 >= odd/4 invariant)
+    size_ok = None
+    for p in ctx.symex(inline_depth=1, loop_visits=2).run(reset.nid):
+        if p.diverged:
+            continue
+        for e in p.events:
+            if e[0] == 'write' and isinstance(e[1], tuple) and e[1][0] == 'fld' and e[1][2] == 'size':
+                v = e[2]
+                good = isinstance(v, tuple) and v[0] == 'bin' and v[1] == 'Shr' and v[3] == ('c', 1) and isinstance(v[2], tuple) and v[2][0] == 'bin' and \
+                    v[2][1] in ('Sub', 'saturating_sub') and v[2][2] == e[1] and isinstance(v[2][3], tuple) and v[2][3][0] == 'bin' and v[2][3][1] == 'Shr' and v[2][3][3] == ('c', 2)
+                size_ok = good if size_ok is None else (size_ok and good)
+                if not good:
+                    r.violate(reset.nid, 'aging-size-formula', 'size', 'the aging step updates the sample counter as `%s`: only `(size - (odd_count >> 2)) >> 1` keeps size >= sum(counters)/4, '
+                              'which is what rules out the underflow' % fmt(v)[:120], where=ctx.where(reset.nid, e[3]), expected='self.size = (self.size - (count >> 2)) >> 1')
+    r.instance(function=reset.nid, size_update='(size - (count >> 2)) >> 1', found=bool(size_ok))
     r.instance(function=reset.nid, slot_rewritten_as='(slot >> 1) & RESET_MASK', found=halved)
     if not halved:
         r.violate(reset.nid, 'aging-not-halving', 'slot', 'the aging step does not rewrite each slot as (slot >> 1) & RESET_MASK', where=ctx.where(reset.nid))
